@@ -27,7 +27,9 @@ verus! {
 //@end
 
 //@include specs/edit_specs.rs.inc
+//@include specs/m2o_ok.rs.inc
 //@include specs/buf_specs.rs.inc
+//@include specs/edit_lemmas.rs.inc
 
 // contract of resolve_edits: discharged on the real body in unit v_edit (same contract file)
 //@extract sudachi/src/input_text/buffer/edit.rs :: fn resolve_edits
@@ -65,6 +67,11 @@ impl InputBuffer {
         broadcast use axiom_str_len_fits;
 //@  before vec_extend_range(&mut self.m2o
         proof { assert(self.modified@ =~= self.original@) by { assert(Seq::<char>::empty() + self.original@ =~= self.original@); } }
+//@  atend
+        proof {
+            let nb = sbytes(self.modified).len() as int;
+            assert forall|i: int, j: int| 0 <= i <= j < self.m2o@.len() implies self.m2o@[i] <= self.m2o@[j] by {}
+        }
 //@end
 
 //@extract sudachi/src/input_text/buffer/mod.rs :: impl InputBuffer :: fn commit
@@ -76,13 +83,16 @@ impl InputBuffer {
     requires
         buf_rw(*old(self)),
         edits_ok(old(self).replaces@, encode_utf8(old(self).modified@)),
+        // documented corner: inserting into an EMPTY rewritten text of a non-empty original would lose the end anchor
+        encode_utf8(old(self).modified@).len() > 0 || encode_utf8(old(self).original@).len() == 0,
     ensures
         final(self).replaces@.len() == 0,
         final(self).original@ == old(self).original@,
         final(self).state == old(self).state,
         old(self).replaces@.len() == 0 ==> r is Ok && final(self).modified@ == old(self).modified@ && final(self).m2o@ == old(self).m2o@,
         // success: the text is the specified rewriting, within the limit, and the offset map is again well formed
-        r is Ok && old(self).replaces@.len() > 0 ==> buf_rw(*final(self))
+        r is Ok && old(self).replaces@.len() > 0 && encode_utf8(final(self).modified@).len() > 0 ==> buf_rw(*final(self)),
+        r is Ok && old(self).replaces@.len() > 0 ==> encode_utf8(final(self).modified@).len() <= LIMIT_NORM()
             && resolved(encode_utf8(old(self).modified@), old(self).m2o@, old(self).replaces@,
                         encode_utf8(final(self).modified@), final(self).m2o@, encode_utf8(final(self).modified@).len() as int),
         // failure is reported only when some prefix of the batch really exceeds the limit
@@ -90,7 +100,26 @@ impl InputBuffer {
             && #[trigger] len_after(encode_utf8(old(self).modified@), old(self).replaces@, k) > LIMIT_NORM(),
 //@  atstart
         broadcast use axiom_str_len_fits;
-        proof { lemma_encode_empty(); }
+        proof { lemma_encode_empty(); lemma_m2o_ok_srcmap(*self); }
+        let ghost b0 = *self;
+//@  before std::mem::swap(&mut self.modified, &mut self.modified_2);
+        let ghost src = sbytes(b0.modified);
+        let ghost tgt = sbytes(self.modified_2);
+        let ghost tm = self.m2o_2@;
+        proof {
+            encode_utf8_valid_utf8(b0.modified@); encode_utf8_valid_utf8(self.modified_2@);
+            theorem_boundary_clause(src, b0.m2o@, b0.replaces@, tgt, tm, sz as int);
+            if tgt.len() > 0 {
+                let no = sbytes(b0.original).len() as int;
+                assert forall|i: int| 0 <= i <= tgt.len() && is_char_boundary(tgt, i) implies is_char_boundary(sbytes(b0.original), #[trigger] tm[i] as int) by {
+                    let w = choose|w: int| 0 <= w <= src.len() && is_char_boundary(src, w) && tm[i] == b0.m2o@[w];
+                    assert(is_char_boundary(sbytes(b0.original), b0.m2o@[w] as int));
+                }
+                assert forall|i: int, j: int| 0 <= i <= j < tm.len() implies tm[i] <= tm[j] by {}
+                assert forall|i: int| 0 <= i <= tgt.len() implies #[trigger] tm[i] <= no by {}
+                if src.len() == 0 { assert(no == 0); }
+            }
+        }
 //@end
 
 //@extract sudachi/src/input_text/buffer/mod.rs :: impl InputBuffer :: fn rollback
